@@ -32,7 +32,10 @@ func ConstraintsUniverse() *Universe {
 	pleaf := u.Record("PLeaf", []*Type{pmid}, Req("leafReq", P(Int32)), Opt("leafOpt", P(String)))
 	pbase := u.Record("PBaseRec", nil, Opt("baseInner", inner), Opt("b", P(Int32)))
 	pouter := u.Record("POuterRec", []*Type{pbase}, Opt("name", P(String)))
-	u.Wrappers = append(u.Wrappers, proot, pmid, pleaf, pbase, pouter)
+	// fields inherited through a record that declares none of its own
+	phollow := u.Record("PHollow", []*Type{proot})
+	pvia := u.Record("PViaHollow", []*Type{phollow}, Opt("viaOpt", P(String)))
+	u.Wrappers = append(u.Wrappers, proot, pmid, pleaf, pbase, pouter, phollow, pvia)
 	return u
 }
 
